@@ -82,8 +82,98 @@ def dense_from(m, vals):
   return D, P
 
 
+F7_XML = ('<mujoco><option gravity="0 0 0"/><worldbody><site name="w" pos="0 0 1"/><body><joint type="hinge" axis="0 1 0"/><geom size="0.1" pos="0.5 0 0"/>'
+          '<site name="s" pos="0.5 0 0"/></body></worldbody><tendon><spatial armature="1"><site site="w"/><site site="s"/></spatial></tendon></mujoco>')
+F8_XML = ('<mujoco><option timestep="0.01"/><worldbody><body><joint type="hinge" axis="0 1 0" damping="0.1 0 1"/><geom size="0.1" pos="0.2 0 0"/></body>'
+          '</worldbody></mujoco>')
+F9_XML = ('<mujoco><option timestep="0.01" integrator="implicit"/><worldbody><body><joint name="j" type="hinge" axis="0 1 0"/><geom size="0.1" pos="0.2 0 0"/>'
+          '</body></worldbody><actuator><damper joint="j" kv="1" ctrlrange="0 1"/></actuator></mujoco>')
+
+
+def probes(ck, lib):
+  """Deterministic probes for the reported derivative deviations (classes excluded from the generated stream)."""
+  h = 1e-6
+
+  def step_state(m, d, dv=None, du=None):
+    dd = lib.copy_data(m, d)
+    if dv is not None:
+      dd.qvel[:] = np.array(dd.qvel) + dv
+    if du is not None:
+      dd.ctrl[:] = np.array(dd.ctrl) + du
+    lib.mj_step(m, dd)
+    return np.concatenate([np.array(dd.qpos), np.array(dd.qvel)])
+  # F7: qDeriv vs d(-qfrc_bias)/dv with tendon armature
+  m = lib.model_from_xml(F7_XML)
+  d = lib.make_data(m)
+  d.qpos[:] = [0.3]
+  d.qvel[:] = [2.0]
+  lib.mj_forward(m, d)
+
+  def bias(v):
+    dd = lib.copy_data(m, d)
+    dd.qvel[:] = [v]
+    lib.mj_fwdVelocity(m, dd)
+    return float(dd.qfrc_bias[0])
+  fd = -(bias(2 + h) - bias(2 - h)) / (2 * h)
+  lib.mjd_smooth_vel(m, d, 1)
+  if abs(float(d.qDeriv[0]) - fd) > 1e-5:
+    ck.violation('qDeriv = %.9g but d(-qfrc_bias)/dqvel = %.9g by central differences (tendon-armature bias term not differentiated)' % (
+        d.qDeriv[0], fd), dict(xml=F7_XML, qpos=[0.3], qvel=[2.0]), bucket='probe-qderiv-tendon-bias', fingerprint='C25:qderiv-tendon-armature-bias')
+  ck.label('probe:F7')
+  # F8: velocity column of A under Euler with polynomial joint damping
+  m = lib.model_from_xml(F8_XML)
+  d = lib.make_data(m)
+  d.qvel[:] = [3.0]
+  lib.mj_forward(m, d)
+  A = np.zeros((2, 2))
+  dd = lib.copy_data(m, d)
+  lib.mjd_transitionFD(m, dd, h, 1, A, None, None, None)
+  own = (step_state(m, d, dv=np.array([h])) - step_state(m, d, dv=np.array([-h]))) / (2 * h)
+  if np.abs(A[:, 1] - own).max() > 1e-5:
+    ck.violation('mjd_transitionFD A[:,qvel] = %s but central differences of mj_step give %s (Euler implicit damping factor re-used although '
+                 'polynomial damping makes it velocity dependent)' % (A[:, 1].tolist(), own.tolist()), dict(xml=F8_XML, qvel=[3.0]),
+                 bucket='probe-transitionfd-polydamping', fingerprint='C25:transitionfd-poly-damping-euler')
+  ck.label('probe:F8')
+  # F9: qDeriv with ctrl above ctrlrange (force uses the clamped control)
+  m = lib.model_from_xml(F9_XML)
+  d = lib.make_data(m)
+  d.qvel[:] = [3.0]
+  d.ctrl[:] = [10.0]
+  lib.mj_forward(m, d)
+
+  def frc(v):
+    dd = lib.copy_data(m, d)
+    dd.qvel[:] = [v]
+    lib.mj_fwdVelocity(m, dd)
+    lib.mj_fwdActuation(m, dd)
+    return float(dd.qfrc_actuator[0] + dd.qfrc_passive[0] - dd.qfrc_bias[0])
+  fd = (frc(3 + h) - frc(3 - h)) / (2 * h)
+  lib.mjd_smooth_vel(m, d, 1)
+  if abs(float(d.qDeriv[0]) - fd) > 1e-5:
+    ck.violation('ctrl = 10 with ctrlrange [0,1]: qDeriv = %.9g but d(smooth force)/dqvel = %.9g (velocity gain multiplied with the unclamped '
+                 'control)' % (d.qDeriv[0], fd), dict(xml=F9_XML, qvel=[3.0], ctrl=[10.0]), bucket='probe-qderiv-unclamped-ctrl',
+                 fingerprint='C25:qderiv-unclamped-ctrl')
+  ck.label('probe:F9')
+  # F10: ctrl column of B under the implicit integrator with a velocity-dependent gain, ctrl inside its range
+  d = lib.make_data(m)
+  d.qvel[:] = [3.0]
+  d.ctrl[:] = [0.5]
+  lib.mj_forward(m, d)
+  B = np.zeros((2, 1))
+  dd = lib.copy_data(m, d)
+  lib.mjd_transitionFD(m, dd, h, 1, None, B, None, None)
+  own = (step_state(m, d, du=np.array([h])) - step_state(m, d, du=np.array([-h]))) / (2 * h)
+  if np.abs(B[:, 0] - own).max() > 1e-5:
+    ck.violation('mjd_transitionFD B[:,0] = %s but central differences of mj_step give %s (factor of M - h*qDeriv re-used although qDeriv depends '
+                 'on ctrl through the velocity gain)' % (B[:, 0].tolist(), own.tolist()), dict(xml=F9_XML, qvel=[3.0], ctrl=[0.5]),
+                 bucket='probe-transitionfd-velgain', fingerprint='C25:transitionfd-ctrl-velgain-implicit')
+  ck.label('probe:F10')
+
+
 def main(ck):
   lib = ck.lib('rel')
+  if not getattr(ck, '_replaying', False):
+    probes(ck, lib)
   E = lib.enums
   worst = {}
 
